@@ -141,13 +141,13 @@ def flatten_items(pg):
         elif kd == "win":
             items.append("PWindow [PWin]" if st.info.get("frame") else "PWin")
         elif kd == "group_take":
-            items.append("PGroup true [PSort %s; PTake]" % k(st.info["keys"]))
+            items.append("PGroup %d [PSort %s; PTake]" % (len(st.info["by"]), k(st.info["keys"])))
         elif kd == "group_win":
-            items.append("PGroup true [PSort %s; PWin]" % k(st.info["keys"]))
+            items.append("PGroup %d [PSort %s; PWin]" % (len(st.info["by"]), k(st.info["keys"])))
         elif kd == "group_agg":
-            items.append("PGroup true [PAgg]")
+            items.append("PGroup %d [PAgg]" % len(st.info["by"]))
         elif kd == "distinct":
-            items.append("PGroup true [PTake]")
+            items.append("PGroup %d [PTake]" % st.info["nkeys"])
         elif kd == "join" and st.info.get("rsub"):
             items.append("PSub [PSort %s]" % k(st.info["rsub"]))
         elif kd in ("join", "append", "knownjoin"):
@@ -176,10 +176,10 @@ def rq_tokens(rq):
         if n == "Sort":
             out.append(("OSort", d(v)))
         elif n == "Take":
-            out.append(("OTake", bool(v.get("partition")), d(v.get("sort", []))))
+            out.append(("OTake", len(v.get("partition") or []), d(v.get("sort", []))))
         elif n == "Compute" and v.get("window") is not None:
             w = v["window"]
-            out.append(("OWin", bool(w.get("partition")), d(w.get("sort", []))))
+            out.append(("OWin", len(w.get("partition") or []), d(w.get("sort", []))))
     return out
 
 
@@ -230,9 +230,9 @@ class FlatShapes:
                 steps.append("aggregate {%s}" % ", ".join("%s = %s %s" % (c, r.choice(["min", "max"]), c) for c in avail))
             elif k < 0.88 and depth < 2 and not in_window:
                 cand = [c for c in (["a", "g"] if depth == 0 else ["b", "c"]) if c not in gkeys]
-                by = [] if r.random() < 0.2 else [r.choice(cand)]
+                by = [] if r.random() < 0.2 else r.sample(cand, r.choice([1, 1, 2]))
                 bi, bs = self.body(depth + 1, gkeys + by, False)
-                items.append("PGroup %s [%s]" % ("true" if by else "false", "; ".join(bi)))
+                items.append("PGroup %d [%s]" % (len(by), "; ".join(bi)))
                 steps.append("group {%s} (%s)" % (", ".join(by), " | ".join(bs)))
             elif k < 0.95 and depth < 2:
                 bi, bs = self.body(depth + 1, gkeys, True, n=r.randint(1, 2))
@@ -264,18 +264,18 @@ def flatten_stream(ck, programs, shapes=()):
         if toks is None:
             ck.stat("flatten", "no-main-pipeline")
             continue
-        exprs.append("(fst (flat (list bool) [] 200 false None [] %s), (fst (carried_spec (list bool) [] 200 None [] %s), tame (list bool) 200 false %s))" % (it, it, it))
+        exprs.append("(fst (flat (list bool) [] 200 false None [] %s), (fst (carried_spec (list bool) [] 200 None [] %s), (tame_agg (list bool) 200 false %s, tame_nest (list bool) 200 None %s)))" % (it, it, it, it))
         meta.append((src, it, toks))
     header = "From Coq Require Import List Bool.\nFrom PV Require Import Model.Flatten.\nImport ListNotations.\n"
     vals = coq_eval(header, exprs) if exprs else []
-    for (src, it, toks), (v, (spec, tame)) in zip(meta, vals):
+    for (src, it, toks), (v, (spec, (tame_a, tame_n))) in zip(meta, vals):
         ck.count("flatten", src)
-        ck.stat("flatten", "tame" if tame else "not-tame")
+        ck.stat("flatten", "tame" if (tame_a and tame_n) else "not-tame")
         for tag in ("PAgg", "PGroup", "PWindow", "PSub"):
             if tag in it:
                 ck.stat("flatten", "has:" + tag)
-        if "PGroup" in it and re.search(r"PGroup (?:true|false) \[[^\]]*PGroup", it):
-            ck.stat("flatten", "has:nested-group")
+        if not tame_n:
+            ck.stat("flatten", "has:group-nested-in-nonempty-group")
         got = []
         for o in v:
             if o[0] == "OSort":
@@ -287,13 +287,14 @@ def flatten_stream(ck, programs, shapes=()):
                             {"prql": src, "items": it, "implementation_rq": toks, "model": got}, lambda c: None)
         # implementation vs SPECIFICATION (carried_spec: the order in effect at every take / windowed compute).  Inside the
         # class `tame` this follows from the comparison above (c03_flattener_carries_order_in_effect_partial); outside of it
-        # (an aggregate inside a group body that is not the last transform of the body) it is finding F44
+        # it is finding F44 (an aggregate inside a group body that is not the last transform of the body) or F45 (a group
+        # nested in a group with a non-empty key)
         carried = [(t[1], t[2]) for t in toks if t[0] != "OSort"]
         want = [(pb, list(k)) for pb, k in spec]
         if carried != want:
             ck.disagreement("flattener: a take / window function is handed a sort that is not the order in effect at its position: %s" % src.replace("\n", " | ")[:220],
                             {"prql": src, "items": it, "implementation_rq": toks, "specification": want},
-                            lambda c, t=tame: None if t else "F44-grouped-aggregate-keeps-sort")
+                            lambda c, a=tame_a, n=tame_n: ("F45-nested-group-partition" if not n else ("F44-grouped-aggregate-keeps-sort" if not a else None)))
 
 
 def main_order_by(sql):
